@@ -44,4 +44,12 @@ PROPS = {
         ],
         "assumptions": ["each top-level key-value call (Set/Delete/DeletePrefix/Update/BulkWrite) is atomic and durable once it returns (true of Badger; Pebble and LevelDB Update is not transactional)"],
     },
+    "C16": {
+        "trusted_base": [
+            "modelled: the 0x00-joined key encoding and its split parsers (kvgraph/keys.go; kvindex/keys.go uses the same scheme) and the validation rules of gripql/util.go (Model/Keys.v); the protobuf Struct round trip of property values is not modelled (checked by the harness only)",
+            "which strings the code accepts is compared with the validation model on every run (accept/reject correspondence)",
+        ],
+        "assumptions": ["identifiers are valid UTF-8 (protobuf string fields: anything else cannot arrive over the wire)",
+                        "the label literally named 'label' is refused by the index layer (modelled as a refusal; on non-transactional drivers the vertex key is already written: thorough tier runs Pebble)"],
+    },
 }
